@@ -186,6 +186,25 @@ mutual
     | (_, b) :: r => uniqueKeysBody b && uniqueKeysRows r
 end
 
+/-! ### what an export (a read into a fresh target) reports (Spec of C04) -/
+
+mutual
+  /-- the data itself; below a node the export had to create, unset leaves show their default -/
+  def withDefaults (new : Bool) : Schema → Data → Data
+    | .leaf d, .leaf (some v) => .leaf (some v)
+    | .leaf d, .leaf none => if new then .leaf d else .leaf none
+    | .cont _, .cont none => .cont none
+    | .cont ks, .cont (some b) => .cont (some (withDefaultsBody true ks b))
+    | .list _ ks, .list rows => .list (withDefaultsRows ks rows)
+    | _, d => d
+  def withDefaultsBody (new : Bool) : List Schema → List Data → List Data
+    | s :: ss, d :: ds => withDefaults new s d :: withDefaultsBody new ss ds
+    | _, ds => ds
+  def withDefaultsRows : List Schema → List (Key × List Data) → List (Key × List Data)
+    | _, [] => []
+    | ks, (k, b) :: r => (k, withDefaultsBody true ks b) :: withDefaultsRows ks r
+end
+
 /-! ### when insert / update succeed (Spec) -/
 
 mutual
